@@ -15,6 +15,20 @@ def main(path):
         mod = __import__("vf.p_" + {"c07": "C07", "c07alloc": "C07", "c18": "C18", "c19": "C19", "c20": "C20"}.get(cfg["kind"], cfg["property"]), fromlist=["replay"])
         return mod.replay(path, cfg)
     src = open(os.path.join(path, "source.lp")).read()
+    if cfg.get("V") is None:
+        # a violation that has no instance (result rejected by clingo, statement not passed through, ...): run the
+        # task again on the current tree
+        from . import e1
+
+        r = e1.run_task({"id": "replay", "text": src, "in": cfg.get("in"), "out": cfg.get("out"), "enabled": cfg["enabled"], "V": cfg.get("mode", "voc"),
+                         "tier": "quick", "c04": cfg["property"] == "C04", "costs": cfg.get("costs", True), "consts": cfg.get("consts", [])})
+        print("result of the current ngo:\n" + str(r.get("result")))
+        print(json.dumps({k: r.get(k) for k in ("status", "reason", "counterexample", "syntactic", "c04_problems")}, indent=1, default=str)[:3000])
+        if r["status"] == "violation":
+            print(f"VIOLATION property={cfg['property']} replay={path}")
+            return 1
+        print("no violation with the current tree")
+        return 0
     inst = open(os.path.join(path, "instance.lp")).read()
     try:
         r = ngorun.run_ngo(src, [tuple(x) for x in cfg["in"]], [tuple(x) for x in cfg["out"]], cfg["enabled"])
